@@ -196,13 +196,15 @@ func witnessGuard(a frontend.Circuit) (vals []*big.Int, err error) {
 	return vals, nil
 }
 
-func c19Dir() string { return filepath.Join(fw.VerifRoot(), "scratch", fmt.Sprintf("c19_%d", os.Getpid())) }
+func c19Dir() string {
+	return filepath.Join(fw.VerifRoot(), "scratch", fmt.Sprintf("c19_%d", os.Getpid()))
+}
 
 // corruptions of one value inside a real proof document (textual edits on the JSON tree)
 type corruption struct {
-	name    string
-	listed  bool // the property lists this malformation: it must be refused
-	apply   func(doc map[string]any, r *rand.Rand) bool
+	name   string
+	listed bool // the property lists this malformation: it must be refused
+	apply  func(doc map[string]any, r *rand.Rand) bool
 }
 
 func jget(m any, path ...string) any {
@@ -329,9 +331,9 @@ func c19Corruptions() []corruption {
 func init() {
 	register("C19", func() *fw.Prop {
 		return &fw.Prop{
-			ID:    "C19",
-			Level: "exploration",
-			Rule:  "cases = 'proof' (seeded random-shape proof documents: cap sizes, opening counts, query rounds, steps, leaf widths, sibling counts 0..17; 64-bit values up to 2^64-1, hash strings incl. values >= r and up to 2^256) written to disk, read with the repository's readers, walked by reflection and compared position by position with the generator's expected values (count and order of leaves, values; hashes as residues mod r), then turned into a witness with frontend.NewWitness whose vector must equal the expected residues in schema order; 'vd' the same for verifier-only data; 'common' random configuration documents vs. every field of the returned CommonCircuitData (selector info read by reflection); 'corrupt' (real proof document, one malformed value: non-numeric / hex / empty / fractional strings, negative, fractional, >=2^64 numbers, scalars where lists are expected) must be refused at read time or at witness time; malformations the property does not list (signed decimal string, null) are only reported. Non-trivial = every document (distinct seeds / corruption kinds).",
+			ID:          "C19",
+			Level:       "exploration",
+			Rule:        "cases = 'proof' (seeded random-shape proof documents: cap sizes, opening counts, query rounds, steps, leaf widths, sibling counts 0..17; 64-bit values up to 2^64-1, hash strings incl. values >= r and up to 2^256) written to disk, read with the repository's readers, walked by reflection and compared position by position with the generator's expected values (count and order of leaves, values; hashes as residues mod r), then turned into a witness with frontend.NewWitness whose vector must equal the expected residues in schema order; 'vd' the same for verifier-only data; 'common' random configuration documents vs. every field of the returned CommonCircuitData (selector info read by reflection); 'corrupt' (real proof document, one malformed value: non-numeric / hex / empty / fractional strings, negative, fractional, >=2^64 numbers, scalars where lists are expected) must be refused at read time or at witness time; malformations the property does not list (signed decimal string, null) are only reported. Non-trivial = every document (distinct seeds / corruption kinds).",
 			Assumptions: []string{"documents are generated by the harness (no plonky2 serializer offline); field names follow the real documents"},
 			MinEvents:   10000,
 			Gen: func(ctx *fw.Ctx) []fw.Case {
@@ -550,10 +552,10 @@ func c19Common(r *rand.Rand, dir, fname string) fw.Outcome {
 	kis := ul(r.Intn(90))
 	arity := ul(r.Intn(4))
 	doc := map[string]any{
-		"config": map[string]any{"num_wires": u(), "num_routed_wires": u(), "num_constants": u(), "use_base_arithmetic_gate": r.Intn(2) == 0, "security_bits": u(), "num_challenges": u(), "zero_knowledge": r.Intn(2) == 0, "max_quotient_degree_factor": u(), "fri_config": cfgFri},
-		"fri_params": map[string]any{"config": prmFri, "hiding": false, "degree_bits": u(), "reduction_arity_bits": arity},
-		"gates":      gs,
-		"selectors_info": map[string]any{"selector_indices": selIdx, "groups": groups},
+		"config":                 map[string]any{"num_wires": u(), "num_routed_wires": u(), "num_constants": u(), "use_base_arithmetic_gate": r.Intn(2) == 0, "security_bits": u(), "num_challenges": u(), "zero_knowledge": r.Intn(2) == 0, "max_quotient_degree_factor": u(), "fri_config": cfgFri},
+		"fri_params":             map[string]any{"config": prmFri, "hiding": false, "degree_bits": u(), "reduction_arity_bits": arity},
+		"gates":                  gs,
+		"selectors_info":         map[string]any{"selector_indices": selIdx, "groups": groups},
 		"quotient_degree_factor": u(), "num_gate_constraints": u(), "num_constants": u(), "num_public_inputs": u(), "k_is": kis, "num_partial_products": u(),
 	}
 	path, err := writeDoc(dir, fname, doc)
